@@ -5,7 +5,9 @@ package main
 import (
 	"bytes"
 	"fmt"
+	"io"
 	"sort"
+	"strings"
 	"sync"
 	"time"
 
@@ -183,11 +185,12 @@ func initOf(off uint32) rowState {
 }
 
 type rowsCfg struct {
-	marker  bool // markRow is seeded; writers may carry del / keep
-	rows    []uint32
-	writers []wspec
-	readers []uint32 // row each reader looks at
-	ranger  bool     // one more reader iterating over everything
+	failSnap bool // snap scenario: another thread takes a snapshot into a writer that fails
+	marker   bool // markRow is seeded; writers may carry del / keep
+	rows     []uint32
+	writers  []wspec
+	readers  []uint32 // row each reader looks at
+	ranger   bool     // one more reader iterating over everything
 }
 
 func genRowsCfg(rng *Rng) rowsCfg {
@@ -275,6 +278,9 @@ func (cfg rowsCfg) seeded() []uint32 {
 }
 
 func (cfg rowsCfg) String() string {
+	if cfg.failSnap {
+		return fmt.Sprintf("rows=%v writers=%+v beside a second snapshot into a failing writer", cfg.rows, cfg.writers)
+	}
 	return fmt.Sprintf("rows=%v writers=%+v readers=%v ranger=%v", cfg.rows, cfg.writers, cfg.readers, cfg.ranger)
 }
 
@@ -554,6 +560,9 @@ func runRows(cfg rowsCfg, ch func(int, []int) int, grace time.Duration) *scenOut
 	// C03 under schedules: the index equals its predicate at quiescence
 	var wantIdx []uint32
 	for _, off := range cfg.rows {
+		if off == virginRow {
+			continue // written but never inserted: not a live row, a filter does not select it
+		}
 		if p, ok := readRow(c, off); ok && p.a >= 5 {
 			wantIdx = append(wantIdx, off)
 		}
@@ -580,12 +589,28 @@ func indexRows(c *column.Collection, name string) []uint32 {
 
 func runSnap(cfg rowsCfg, ch func(int, []int) int, grace time.Duration) *scenOut {
 	out := &scenOut{Viol: map[string][]string{}, Known: map[string][]string{}, Desc: "snap: " + cfg.String(), Features: map[string]int{}}
-	c := mkRowsColl(nil)
+	lg := &schedLogger{}
+	c := mkRowsColl(lg)
 	defer c.Close()
 	seedRows(c, cfg.rows)
+	lg.commits = nil
 	nw := len(cfg.writers)
-	s := NewSched(nw+1, grace)
+	nthr := nw + 1
+	if cfg.failSnap {
+		nthr++
+	}
+	s := NewSched(nthr, grace)
+	lg.s = s
+	snapLogger = lg
+	snapFailErr, snapFailRan = nil, false
 	installHook(s)
+	if cfg.failSnap {
+		// a snapshot into a destination that fails: it must not disturb the healthy one or the writers
+		s.Go(nw+1, func() {
+			snapFailErr = c.Snapshot(&faultWriter{w: io.Discard, failCall: 0, failByte: -1, forever: true})
+			snapFailRan = true
+		})
+	}
 	for i, w := range cfg.writers {
 		w := w
 		s.Go(i, func() {
@@ -641,9 +666,37 @@ func snapWriterTxn(c *column.Collection, w wspec) {
 	}
 }
 
+var snapLogger *schedLogger
+var snapFailErr error
+var snapFailRan bool
+
 func runSnapRest(cfg rowsCfg, c *column.Collection, s *Sched, nw int, ch func(int, []int) int, out *scenOut, snapP *bytes.Buffer, serrP *error) *scenOut {
 	alts, stuck := s.Run(ch)
 	snap, serr := snapP, *serrP
+	// C15: a snapshot in progress does not divert the change stream: every round of every writer
+	// emits exactly one commit per block it changed to the collection's writer
+	if !stuck && snapLogger != nil {
+		got := map[[2]uint32]int{}
+		for _, cm := range snapLogger.commits {
+			if cm.tid >= 0 && cm.tid < nw {
+				got[[2]uint32{uint32(cm.tid), cm.chunk}]++
+			}
+		}
+		for tid, w := range cfg.writers {
+			blocks := map[uint32]bool{}
+			for _, r := range w.rows {
+				blocks[r>>14] = true
+			}
+			if w.insert {
+				blocks[0] = true
+			}
+			for b := range blocks {
+				if n := got[[2]uint32{uint32(tid), b}]; n != 1+w.rounds {
+					out.viol("C15", "writer %d committed block %d %d time(s) beside a snapshot but the change stream received %d commit(s) for it", tid, b, 1+w.rounds, n)
+				}
+			}
+		}
+	}
 	removeHook()
 	out.Trace, out.Stuck, out.Steps, out.Choices, out.Alts = s.Trace, stuck, len(s.Trace), s.Choices, alts
 	if stuck {
@@ -653,7 +706,13 @@ func runSnapRest(cfg rowsCfg, c *column.Collection, s *Sched, nw int, ch func(in
 	for _, p := range s.panics {
 		out.viol("C08", "panic beside a snapshot: %s", p)
 	}
+	if cfg.failSnap && snapFailRan && snapFailErr == nil {
+		out.viol("C14", "a snapshot into a writer that fails on its first call returned nil")
+	}
 	if serr != nil {
+		if cfg.failSnap && strings.Contains(serr.Error(), "another one might be in progress") {
+			return out // the two snapshots overlapped and this one was refused: nothing to judge
+		}
 		out.viol("C08", "Snapshot failed beside concurrent writers: %v", serr)
 		return out
 	}
@@ -731,8 +790,14 @@ func runSnapRest(cfg rowsCfg, c *column.Collection, s *Sched, nw int, ch func(in
 				got = append(got, g)
 			}
 			out.viol("C08", "block %d restored to %+v, which is no prefix of its apply order %v", b, got, ord)
+			if cfg.failSnap {
+				out.viol("C14", "beside a snapshot that failed, the healthy snapshot does not restore correctly: block %d restored to %+v, no prefix of its apply order %v", b, got, ord)
+			}
 		} else if match < ackedBefore[b] {
 			out.viol("C08", "block %d restored to prefix %d of %v but %d commits were acknowledged before the snapshot began", b, match, ord, ackedBefore[b])
+			if cfg.failSnap {
+				out.viol("C14", "beside a snapshot that failed, the healthy snapshot misses acknowledged commits of block %d", b)
+			}
 		}
 	}
 	// blocks without a writer: unchanged
